@@ -118,7 +118,7 @@ def run(rep, tier, seed, proof_ok):
                 "parsed back and compared with the Coq model of _structure and with the specification graph computed from the program "
                 "(kept paths + paths loaded by kept functions as nodes; solid = reaches the keep without crossing a kept function; "
                 "dashed = loads; remaining edges must be dotted and join sibling keeps); result and signatures are compared with the "
-                "same evaluation without export; distinct = distinct pipeline; non-trivial = at least two nodes")
+                "same evaluation without export; plus random interaction trees with shared sub-trees, run-time-argument nodes and loads given directly to the real _structure (cycle search; a sample compared with the Coq model); distinct = distinct pipeline / tree; non-trivial = at least two nodes")
     jobs = []
     for i in range(n):
         r2 = random.Random(seed * 1000 + i)
@@ -223,7 +223,31 @@ def run(rep, tier, seed, proof_ok):
             if r["ctl"]["impl"]["out"].startswith("ok:"):
                 rep.violation("export-fails", f"the evaluation succeeds without export but gives {r['rec']['impl']['out'][:80]} with dds_export_graph",
                               {"prog": r["job"]["prog"], "call": r["job"]["call"], "tb": r["rec"]["impl"].get("tb", "")[-400:]})
-    rep.extra["input_distribution"] = {"pipelines": len(jobs), "graphs_by_number_of_nodes": sizes}
+    # search support: random interaction trees with shared sub-trees given to the real _structure (cycles), a sample of
+    # them also to the Coq model of _structure
+    fz = C.run_driver("drive_graphfuzz.py", {"n": 4000 if tier == "quick" and proof_ok else 80000, "seed": seed, "sample": 150 if tier == "quick" else 600}, timeout=1500)
+    for cy in fz["cyclic"]:
+        rep.violation("graph-cyclic:fuzzed-interaction-tree", "the real _structure returns a cyclic graph for an interaction tree in which a sub-tree is shared",
+                      {"fuzz": True, "tree": cy["tree"], "edges": cy["edges"]})
+    for er in fz["errors"]:
+        rep.violation("export-fails:fuzzed-interaction-tree", f"the real _structure raises {er['error']}", {"fuzz": True, "tree": er["tree"]})
+
+    def fi_coq(t):
+        sig, path, nargs, loads, ch = t
+        return (f"(FI {C.hexs(sig)} {('(Some ' + C.hexs(path) + ')') if path else 'None'} {C.hexs('f')} {nargs} "
+                f"[{'; '.join(C.hexs(q) for q in loads)}] [{'; '.join(fi_coq(c) for c in ch)}])")
+    fexprs = [f"render_graph (structure {fi_coq(smp['tree'])} [{'; '.join('(' + C.hexs(p) + ', ' + C.hexs(k) + ')' for p, k in smp['refs'])}])" for smp in fz["sample"]]
+    fmodel = C.coq_eval_strings(PRELUDE, fexprs, label="c18f")
+    for smp, m in zip(fz["sample"], fmodel):
+        rep.case("fuzz:" + json.dumps(smp["tree"])[:300], nontrivial=len(smp["nodes"]) >= 2)
+        mn, me = m.split("#")[:2]
+        mnodes = sorted(x for x in mn.split(",") if x)
+        medges = sorted([e.rsplit(":", 1)[0].split(">")[0], e.rsplit(":", 1)[0].split(">")[1], e.rsplit(":", 1)[1]] for e in me.split(",") if e)
+        if mnodes != smp["nodes"] or medges != smp["edges"]:
+            rep.violation("model-mismatch:graph-fuzz", "the real _structure and its Coq model differ on a fuzzed interaction tree",
+                          {"fuzz": True, "tree": smp["tree"], "impl_nodes": smp["nodes"], "impl_edges": smp["edges"], "model": m})
+    rep.extra["input_distribution"] = {"pipelines": len(jobs), "graphs_by_number_of_nodes": sizes, "fuzzed_interaction_trees": fz["trees"],
+                                       "fuzzed_trees_compared_with_model": len(fz["sample"])}
     if good:
         rep.sample({"entry": good[0]["job"]["call"], "graph": good[0]["rec"]["impl"].get("graph", "")[:300]})
 
